@@ -127,6 +127,8 @@ inductive Fn where
   | cond_clause
 deriving DecidableEq, Repr, Inhabited
 
+def Fn.all : List Fn := [.source_file, .statement_list_top, .statement_list_block, .statement_list_single_or_block, .statement, .include, .class_, .def_, .object_name, .let_, .let_list, .let_item, .multi_class, .multi_class_statements, .multi_class_statement, .defm, .defset, .defvar, .dump, .foreach, .foreach_iterator, .foreach_iterator_init, .if_, .assert_, .opt_template_arg_list, .template_arg_list, .template_arg_decl, .record_body, .parent_class_list, .class_ref, .arg_value_list, .arg_value, .body, .body_item, .field_def, .field_let, .type_, .bit_type, .int_type, .string_type, .dag_type, .bits_type, .list_type, .class_id, .code_type, .opt_value, .value, .inner_value, .opt_name_value, .name_value, .inner_name_value, .value_suffix, .range_suffix, .range_list, .range_piece, .slice_suffix, .slice_elements, .slice_element, .field_suffix, .simple_value, .integer, .string_, .code, .boolean, .uninitialized, .bits, .list_, .dag, .dagarg_list, .dagarg, .var_name, .identifier, .identifier_or_class_value, .bang_operator, .cond_operator, .cond_clause]
+
 inductive Prog where
   | nop
   | startNode (k : SyntaxKind)
